@@ -41,9 +41,9 @@ def mkdate(us):
 
 
 @st.composite
-def kep_case(draw, hyp_ok=True):
+def kep_case(draw, hyp_ok=True, emax_ell=0.95):
     hyp = hyp_ok and draw(st.integers(0, 9)) < 3
-    el = draw(go.elements(elliptic=not hyp, hyperbolic=hyp, emax_ell=0.95, emax_hyp=10.0, hmax=3.0,
+    el = draw(go.elements(elliptic=not hyp, hyperbolic=hyp, emax_ell=emax_ell, emax_hyp=10.0, hmax=3.0,
                           rp_range=(1.03, 8.0), mwind=1.0, emin_hyp=1.01))
     form = draw(st.sampled_from(HYP_FORMS if hyp else FORMS))
     frame = draw(st.sampled_from(FRAMES))
@@ -305,6 +305,109 @@ def check_j2(case):
                 ratio=worst)
 
 
+# ------------------------------------------------------------------ re-use of one orbit object
+
+
+@st.composite
+def reuse_case(draw):
+    """One Orbit object goes through a short life: propagated, its derived quantities read, re-expressed in
+    place in another form, given a delta-v in place, replaced by one of its own propagated states ..."""
+    c = draw(kep_case(hyp_ok=False, emax_ell=0.8))
+    c["propagator"] = draw(st.sampled_from(["kepler", "kepler", "j2"]))
+    ops = []
+    for _ in range(draw(st.integers(3, 7))):
+        name = draw(st.sampled_from(["prop", "prop", "form", "infos", "dv", "adopt"]))
+        op = dict(op=name)
+        if name in ("prop", "adopt"):
+            op["dt_us"] = draw(go.uniform_int(-2 * 86400 * 10**6, 2 * 86400 * 10**6))
+        elif name == "form":
+            op["form"] = draw(st.sampled_from(FORMS))
+        elif name == "dv":
+            op["k"] = draw(st.sampled_from([0.97, 0.99, 1.01, 1.03]))
+        ops.append(op)
+    c["ops"] = ops
+    return c
+
+
+def _j2_compare(cart0, got, dt, mu, k, what):
+    from beyond.constants import Earth
+
+    a0 = tb.cart2elements(cart0, mu)
+    a1 = tb.cart2elements(got, mu)
+    a, e, i = a0["a"], a0["e"], a0["i"]
+    n = math.sqrt(mu / a**3)
+    com = n * Earth.J2 * (Earth.r / (a * (1 - e * e))) ** 2
+    dO = -1.5 * com * math.cos(i)
+    dw = 0.75 * com * (5 * math.cos(i) ** 2 - 1)
+    dM = n + 0.75 * com * math.sqrt(1 - e * e) * (3 * math.cos(i) ** 2 - 1)
+    tol = 1e-10 * k + 1e-9
+    worst = 0.0
+    for name, d in [("a", abs(a1["a"] / a0["a"] - 1)), ("e", abs(a1["e"] - a0["e"]) * min(1.0, e)),
+                    ("i", abs(a1["i"] - a0["i"])),
+                    ("raan-rate", abs(tb.angdiff(a1["raan"] - a0["raan"], dO * dt))),
+                    ("argp-rate", abs(tb.angdiff(a1["argp"] - a0["argp"], dw * dt)) * min(1.0, e)),
+                    ("M-rate", abs(tb.angdiff(a1["M"] - a0["M"], dM * dt)) * min(1.0, e))]:
+        worst = max(worst, d / tol)
+        if d > tol:
+            raise Violation("reuse-j2-" + name, f"{what}: {name} off by {d:.3g} rad (tol {tol:.3g}) after dt={dt:.3f} s")
+    return worst
+
+
+def check_reuse(case):
+    from beyond.propagators.j2 import J2
+    from beyond.propagators.kepler import Kepler
+
+    j2 = case["propagator"] == "j2"
+    orb, cart0, mu = build(case, J2() if j2 else Kepler())
+    epoch_us = case["epoch_us"]
+    worst, done, tags = 0.0, [], set()
+    for idx, op in enumerate(case["ops"]):
+        e0 = tb.cart2elements(cart0, mu)
+        assume(1e-4 <= e0["e"] <= 0.9 and 0.01 < e0["i"] < math.pi - 0.01)
+        el = dict(e=e0["e"], i=e0["i"], a=e0["a"])
+        n = math.sqrt(mu / e0["a"] ** 3)
+        if op["op"] in ("prop", "adopt"):
+            dt = op["dt_us"] * 1e-6
+            what = f"op {idx} ({op['op']} after {'+'.join(done) or 'nothing'}), orbit held as {orb.form.name}"
+            res = orb.propagate(mkdate(epoch_us + op["dt_us"]))
+            got = as_cart(res)
+            k = cond(el, n, dt, orb.form.name)
+            if j2:
+                worst = max(worst, _j2_compare(cart0, got, dt, mu, k, what))
+            else:
+                ref = tb.propagate_uv(cart0, dt, mu)
+                tol = 1e-11 * k + 1e-10
+                dr, dv = rel_err(got, ref)
+                worst = max(worst, dr / tol, dv / tol)
+                if dr > tol or dv > tol:
+                    raise Violation("reuse-universal-variable", f"{what}: propagate({dt:.6f} s) differs from the two-body "
+                                    f"solution of the numbers the orbit holds by dr={dr:.3g} dv={dv:.3g} (tol {tol:.3g})")
+            if op["op"] == "adopt" and hasattr(res, "propagate"):
+                orb, cart0, epoch_us = res, got, epoch_us + op["dt_us"]
+                tags.add("adopt")
+        elif op["op"] == "form":
+            orb.form = op["form"]
+            if op["form"] in ("spherical", "cylindrical"):
+                assume(kappa_polar(cart0) < 1e4)
+            cart0 = as_cart(orb)  # the numbers the object now holds (conversion accuracy is C01's)
+        elif op["op"] == "infos":
+            _ = orb.infos.n, orb.infos.period, orb.infos.kep
+        elif op["op"] == "dv":
+            orb.form = "cartesian"
+            orb[3:] = np.asarray(orb.base, float)[3:] * op["k"]
+            cart0 = as_cart(orb)
+        done.append(op["op"])
+    seq = "".join(o[0] for o in done)
+    # non-trivial: a propagation after the object had been propagated AND changed in place
+    import re
+    nt = bool(re.search(r"[pa].*[fd].*[pa]", seq))
+    if re.search(r"i.*d.*[pa]", seq):
+        tags.add("infos-read-then-changed")
+    if re.search(r"[pa].*f.*[pa]", seq):
+        tags.add("propagated-then-re-expressed")
+    return dict(nt=nt, cls=sorted(tags) + [case["propagator"], "form:" + case["form"]], ratio=worst)
+
+
 FACETS = [
     Facet("kepler", lambda s, t: kep_case(), check_kepler, setup=setup,
           rule="|dt| > 1 s and (hyperbolic or |n.dt| > pi or dt < 0)", quick=(16, 400), thorough=(32, 5000)),
@@ -313,4 +416,7 @@ FACETS = [
     Facet("j2", lambda s, t: j2_case(), check_j2, setup=setup,
           rule="|dt| > 1 s; three dates per case so that linearity in time is tested; polar and critical inclinations forced in 1/2 of the cases",
           quick=(10, 300), thorough=(16, 4000)),
+    Facet("reuse", lambda s, t: reuse_case(), check_reuse, setup=setup,
+          rule="a propagation after the same object had been propagated and then changed in place (form / delta-v)",
+          quick=(8, 250), thorough=(16, 3000)),
 ]
